@@ -37,6 +37,8 @@ def worker_main(pid, spec_path, out_path):
         spec = json.load(f)
     t0 = time.time()
     try:
+        import random as _random
+        _random.seed("worker/%s/%s" % (spec.get("seed", 0), spec.get("shard", 0)))   # code under test draws ids/nonces from it
         res = mod.run_shard(spec)
     except Exception:
         import traceback
